@@ -169,8 +169,15 @@ inline std::string routeInvalid(const std::vector<P> &r, const P &src, const P &
                 for (auto &vtx : shapes[s]) if (ptSegDist(vtx, r[i - 1], r[i]) <= 1e-9) onVerts++;
                 // known finding F37: an end point outside the shape but inside its mitred routing polygon makes the router treat the shape as containing it
                 bool inZone = false;
-                if (buf > 0 && shapes[s].size() >= 3) { Poly z = mitredOffset(shapes[s], buf); inZone = pointInConvex(src, z, 1e-9) || pointInConvex(dst, z, 1e-9); }
-                return fmt("segment (%.10g,%.10g)-(%.10g,%.10g) passes through the interior of shape %zu%s%s", r[i - 1].x, r[i - 1].y, r[i].x, r[i].y, s, onVerts >= 2 ? " [through two of its vertices]" : "", inZone ? " [an end point lies inside this shape's mitred buffer polygon]" : "");
+                if (buf > 0 && shapes[s].size() >= 3) {
+                    Poly z = mitredOffset(shapes[s], buf);
+                    inZone = pointInConvex(src, z, 1e-9) || pointInConvex(dst, z, 1e-9);
+                    // ... or the crossed shape has a long mitre spike (a mitre vertex more than 3 buffer distances away from its shape
+                    // vertex): sight lines past the tip of such a spike are unreliable and the router falls back to the straight line
+                    for (size_t q = 0; q < z.size() && !inZone; q++)
+                        if (std::hypot((LD)z[q].x - shapes[s][q].x, (LD)z[q].y - shapes[s][q].y) > 3 * buf) inZone = true;
+                }
+                return fmt("segment (%.10g,%.10g)-(%.10g,%.10g) passes through the interior of shape %zu%s%s", r[i - 1].x, r[i - 1].y, r[i].x, r[i].y, s, onVerts >= 2 ? " [through two of its vertices]" : "", inZone ? " [this shape's mitred buffer polygon contains an end point or has a long spike]" : "");
             }
     }
     return "";
